@@ -320,9 +320,20 @@ pub fn run_one(w: &Worker, scen: &Scenario, spec: &RunSpec, judge: Judge, st: &m
 
 /// children of an execution in the deviation tree: one more deviation at a later decision
 pub fn children(ex: &Exec) -> Vec<RunSpec> {
+    children_at(ex, None)
+}
+
+/// like `children`, but deviations only at the decision indices in `only` (a focused search, e.g. "pre-empt a
+/// thread only where it is about to write a log line")
+pub fn children_at(ex: &Exec, only: Option<&std::collections::HashSet<usize>>) -> Vec<RunSpec> {
     let start = ex.spec.devs.last().map(|d| d.0 + 1).unwrap_or(0);
     let mut out = vec![];
     for i in start..ex.res.decisions.len() {
+        if let Some(o) = only {
+            if !o.contains(&i) {
+                continue;
+            }
+        }
         let d = &ex.res.decisions[i];
         for &alt in &d.enabled {
             if alt != d.default {
@@ -346,7 +357,17 @@ pub fn explore(pool: &Pool, jobs: Vec<(Arc<Scenario>, RunSpec, usize)>, judge: J
         if let Some(ex) = run_one(w, &scen, &spec, judge, st) {
             // a hang is already a verdict: exploring around it would only spin through the step budget again
             if budget > 0 && !matches!(ex.res.outcome, Outcome::Killed) && !ex.res.outcome.is_hang() {
-                for c in children(&ex) {
+                // "@logpoints" in the scenario name: a focused search that pre-empts only where the running thread
+                // is about to write a log line or to pass a hook marker
+                //   "@atomicpoints": only where it is about to execute an atomic instruction of xcp's own code or a marker
+                let only: Option<std::collections::HashSet<usize>> = if scen.name.contains("@logpoints") {
+                    Some(ex.res.events.iter().filter(|e| e.name == "write:stdio" || e.name == "MARK").map(|e| e.idx).collect())
+                } else if scen.name.contains("@atomicpoints") {
+                    Some(ex.res.events.iter().filter(|e| e.name == "ATOMIC" || e.name == "MARK").map(|e| e.idx).collect())
+                } else {
+                    None
+                };
+                for c in children_at(&ex, only.as_ref()) {
                     more.push((scen.clone(), c, budget - 1));
                 }
             }
